@@ -38,6 +38,9 @@ CLAIMS = {
     "C15": dict(engine="direct",
                 text="Routing: exhaustive table of 128 probe implementers x 65 item forms x 3 hook return modes against a routing model. Splitting: N random nested lists whose item split is known by construction, print/parse identity, and single-token mutations judged by an independent token-tree recogniser.",
                 note="Expression validity is delegated to syn::parse2::<Expr>; keyword item names other than crate/self/super are not generated."),
+    "C19": dict(engine="direct",
+                text="Usage: held on N constructed types with every identifier / lifetime planted at a labelled use / declaration-only / non-use position, random query sets, both purposes, and collections (= union of members). Bounds: held on N generic receivers x 6 derives whose emitted impl block is parsed: parameters, own bounds, where-clause and self type unchanged, FromMeta bound on exactly the declared params used by parsed fields.",
+                note="Expected answers come from construction, never from analysing the type; the emitted impl is parsed with syn."),
 }
 
 PENDING = {}
